@@ -194,7 +194,15 @@ func fmtModel(m map[string]string) string {
 	}
 	sort.Strings(ks)
 	var sb strings.Builder
+	n := 0
 	for _, k := range ks {
+		if m[k] == "0" && strings.Contains(k, "[") {
+			continue
+		}
+		if n++; n > 40 {
+			sb.WriteString("…")
+			break
+		}
 		sb.WriteString(k + "=" + m[k] + " ")
 	}
 	return sb.String()
